@@ -9,7 +9,7 @@ import torch
 from hypothesis import strategies as st
 
 from vlib import gen, ref
-from vlib.case import hash_noise, make_grid, tdtype
+from vlib.case import assert_grid_intact, grid_state, hash_noise, make_grid, tdtype
 from vlib.core import EPS32, EPS64, Facet, Skip, Violation, check_close, eps_of
 
 PROPERTY = "C01"
@@ -197,6 +197,7 @@ def run_ref_model(case):
     g = case["grid"]
     m = ref.GridModel.from_desc(g)
     grid = make_grid(g, case["route"])
+    state = grid_state(grid)
     a, b = case["a"], case["b"]
     m2, grid2 = m, None
     if "grid2" in case:
@@ -218,6 +219,7 @@ def run_ref_model(case):
     bound = _bound(m2, m, a, b, pa, dt, dec)
     r = check_close(out, exp_shaped, bound, "map_vs_model" if grid2 is None else "two_grid_map_vs_model",
                     f"{case['api']} {a}->{b} decimals={case['decimals']} route={case['route']}")
+    assert_grid_intact(grid, state, "after " + case["api"])
     # default-align_corners helper spelling
     if grid2 is None and case["api"] == "helper":
         dflt = "cube_corners" if g["ac"] else "cube"
@@ -255,6 +257,7 @@ def law_cases(draw):
 def run_laws(case):
     g = case["grid"]
     grid = make_grid(g)
+    state = grid_state(grid)
     m = ref.GridModel.from_desc(g)
     a, b, c = case["a"], case["b"], case["c"]
     A, B, C = _axes(a), _axes(b), _axes(c)
@@ -282,6 +285,7 @@ def run_laws(case):
     Lbc = np.abs(mB.matrix(b, c, mC)[:, : m.D]).sum(1).max()
     r2 = check_close(pc_via, pc_direct.double().numpy(), bC + bC2 + Lbc * bB, "composition",
                      f"{a}->{c} vs {a}->{b}->{c} decimals={case['decimals']} two={case['two']}")
+    assert_grid_intact(grid, state, "after point maps")
     nt = gen.grid_is_oblique(g) and gen.grid_is_anisotropic(g) and len({a, b, c}) == 3
     return {"ratio": max(r1, r2), "nontrivial": nt,
             "labels": [f"{a}->{b}->{c}", f"two={case['two']}", f"dec={case['decimals']}", case["dtype"]]}
@@ -312,6 +316,7 @@ def run_vectors(case):
 
     g = case["grid"]
     grid = make_grid(g)
+    state = grid_state(grid)
     m = ref.GridModel.from_desc(g)
     a, b = case["a"], case["b"]
     A, B = _axes(a), _axes(b)
@@ -364,6 +369,11 @@ def run_vectors(case):
     if a == "world" and b == "world":
         if not torch.equal(grid.transform_vectors(v, A, B), v):
             raise Violation("world_vectors_changed", "world->world vector map is not the identity")
+    # vector conversions to every axes are read-only: the grid must be unchanged and a repeated call must agree
+    for ax in AX:
+        grid.transform_vectors(V, A, _axes(ax))
+    assert_grid_intact(grid, state, "after transform_vectors")
+    check_close(grid.transform_vectors(v, A, B, to_grid=grid2), exp_shaped, bound, "vectors_repeat_call", f"second call {a}->{b}")
     nt = gen.grid_is_oblique(g) and gen.grid_is_anisotropic(g) and a != b
     return {"ratio": r, "nontrivial": nt, "labels": [f"{a}->{b}", f"api={case['api']}", f"two={case['two']}", case["dtype"]]}
 
@@ -383,6 +393,7 @@ def run_anchors(case):
 
     g = case["grid"]
     grid = make_grid(g, case["route"])
+    state = grid_state(grid)
     m = ref.GridModel.from_desc(g)
     D = case["D"]
     n = m.n
@@ -415,6 +426,7 @@ def run_anchors(case):
         e[0, k] = 1
         step = (grid.index_to_world(e) - grid.index_to_world(zero))[0]
         check_close(step, m.s[k] * m.R[:, k], bw, "unit_step_direction", f"axis {k}")
+    assert_grid_intact(grid, state, "after anchor queries")
     return {"ratio": r, "nontrivial": gen.grid_is_oblique(g) and gen.grid_is_anisotropic(g),
             "labels": [g["kind"], f"ac={g['ac']}", f"route={case['route']}", f"D={D}"]}
 
